@@ -256,6 +256,9 @@ func (nr *nativeRunner) run(pkgRel string, cases []nativeCase) ([]nativeOutcome,
 	defer os.Remove(outp)
 	cmd := exec.Command(bin, "-test.run", "^TestVerifReplay$", "-test.timeout", "300s")
 	cmd.Dir = filepath.Join(nr.repo, pkgRel)
+	if _, serr := os.Stat(cmd.Dir); serr != nil {
+		cmd.Dir = nr.repo // overlay-only package directory
+	}
 	cmd.Env = append(os.Environ(), "VERIF_REPLAY_IN="+in, "VERIF_REPLAY_OUT="+outp, fmt.Sprintf("VERIF_SEED=%d", nr.seed))
 	co, err := cmd.CombinedOutput()
 	ob, rerr := os.ReadFile(outp)
